@@ -460,6 +460,11 @@ async def plain_scenarios(ctx, run, r):
     return stats
 
 
+def la_lb_guard(ca, cb_):
+    """index of the event at the receiving end (after the originating event and one event per relay / rendezvous point)"""
+    return len(ca.hops) + len(cb_.hops)
+
+
 async def e2e_scenario(ctx, run, r):
     """one hidden-service style circuit pair linked at a rendezvous point, with the extra end-to-end layer"""
     import os as _os
@@ -518,18 +523,34 @@ async def e2e_scenario(ctx, run, r):
     sc = rp.circuit
     n_ok = 0
     for a, ca, b, cb_, d_hs in ((downloader, dc, seeder, sc, 1), (seeder, sc, downloader, dc, 0)):
-        for n in ([0, 1, 40, 279, 1000] if ctx.quick else [0, 1, 2, 40, 279, 600, 1000, 1400]):
-            data = shaped(r, n, "raw")
+        payloads = [("raw", shaped(r, n, "raw")) for n in ([0, 1, 40, 279, 1000] if ctx.quick else [0, 1, 2, 40, 279, 600, 1000, 1400])]
+        # every size below the IPv8 threshold, non-IPv8 payloads around it, and IPv8-shaped payloads (00 01 / 00 02 and at
+        # least 23 bytes) with a foreign prefix and with the tunnel overlay's own prefix: on an end-to-end circuit all of
+        # them are raw data for the consumer, never overlay traffic
+        payloads += [("short", bytes([0, r.choice([1, 2])])[:n] + r.randbytes(max(0, n - 2))) for n in range(0, 23)]
+        payloads += [("not-ipv8", bytes([r.choice([1, 3, 255]), r.randrange(256)]) + r.randbytes(n - 2)) for n in (23, 24, 60)]
+        payloads += [("ipv8-foreign", bytes([0, v]) + r.randbytes(n - 2)) for v in (1, 2) for n in ((23, 24, 60, 300) if ctx.quick else (23, 24, 25, 60, 300, 1000))]
+        payloads += [("ipv8-own-prefix", tn.prefix() + bytes([mid]) + r.randbytes(k)) for mid in (254, 7, 1) for k in (0, 1, 30)]
+        for shape, data in payloads:
+            n = len(data)
             org = ("10.9.8.7", 1024)
-            meta = {"kind": "e2e", "from": a._verif_name, "size": n}
+            meta = {"kind": "e2e", "from": a._verif_name, "size": n, "shape": shape}
             evs = [run.send_data(a, ca.hop.address, ca.circuit_id, NULL, org, data)]
             await tn.drain(evs)
             run.add_all(evs, meta)
             got = [d for d in deliveries(evs) if d[0] in ("raw", "exit", "reinject")]
             if got != [("raw", cb_.circuit_id, org, data)]:
-                ctx.violation("e2e/not-intact", "%d bytes from %s: the other end saw %s" % (n, a._verif_name, [(g[0], len(g[-1])) for g in got]), meta)
+                ctx.violation("e2e/not-intact", "%d bytes (%s) from %s: the other end's consumer saw %s" % (
+                    n, shape, a._verif_name, [(g[0], len(g[-1]) if isinstance(g[-1], bytes) else g[-1]) for g in got]), meta)
             else:
                 n_ok += 1
+            # no other effect: the only handler entered is the receiving end's data handler, nothing goes to third parties
+            hs = [(e["node"], rec[1]) for e in evs for rec in e["records"] if rec[0] == "handler"]
+            if hs != [(b._verif_name, 1)]:
+                ctx.violation("e2e/other-handler-entered", "%d bytes (%s) from %s: handlers entered %s" % (n, shape, a._verif_name, hs), meta)
+            stray = [rec for e in evs[la_lb_guard(ca, cb_):] for rec in e["records"] if rec[0] == "send"]
+            if stray:
+                ctx.violation("e2e/packet-to-third-party", "%d bytes (%s) from %s: the receiving end sent %d datagram(s)" % (n, shape, a._verif_name, len(stray)), meta)
             # links: every body opens only with the remaining hop keys and then the end-to-end key
             dgs = [e["datagram"][2] for e in evs[1:]]
             la, lb = len(ca.hops), len(cb_.hops)
@@ -657,7 +678,7 @@ async def replay_case(case, verbose=True):
         def count(self, *a, **k):
             pass
     ctx = Sink()
-    if case.get("e2e"):
+    if case.get("e2e") or case.get("kind") == "e2e":
         tn = await make_net(hidden=True)
         run = Run(ctx, tn, "replay")
         try:
@@ -745,6 +766,7 @@ def run(ctx):
                             "{0,1,2,279,1000,1400} (thorough: 0..1400 step 7) forward (v4/v6/domain destinations) and backward, speed-test request/response, "
                             "ping/pong, returned IPv8-shaped data (own / foreign prefix); faults per direction and link: every header byte, 64 sampled "
                             "(thorough: all) body bytes, truncation, extension, cross-circuit and reflected splices, injection under fresh keys / unknown id / "
-                            "plaintext flag; one end-to-end (rendezvous) circuit pair with sizes and faults on every link; each event is one lockstep case; "
+                            "plaintext flag; one end-to-end (rendezvous) circuit pair, both directions: sizes, every size 0..22, "
+                            "non-IPv8 and IPv8-shaped payloads (foreign / own prefix), faults on every link; each event is one lockstep case; "
                             "distinct = distinct scenario parameters")
 
